@@ -34,6 +34,7 @@ const (
 	stParked  = iota // parked at a hook (or not yet started): enabled
 	stRunning        // resumed; after Wait() this means "blocked for real"
 	stEnded
+	stPending // a context watcher that woke up; the scheduler decides at the next quiescence whether it is a thread
 )
 
 // Thread is a schedulable entity: a driver body, a VM goroutine or a context watcher.
@@ -57,6 +58,8 @@ type Thread struct {
 	label         string // label of a Yield point
 	forceDone     int    // -1 none; 0 force the channel operation; 1 force the context's done case
 	forcedPending bool   // a forced case was installed and the operation has not completed yet
+	watched       *Thread // for a watcher: the VM thread whose flag it stores
+	chanOps       int    // channel primitives reached through reflect since the last step (intra-instruction points, see intra_on.go)
 }
 
 // Op returns the operation the thread is parked at (0 if none).
@@ -98,6 +101,11 @@ type Exec struct {
 	Cancelled bool // set by scenario code when it cancels a context
 	doneSeen  bool
 	User      any // scenario's per-execution state
+	schedGoid uint64 // goroutine of the scheduler loop (its own reflect calls are not scheduling points)
+	// IntraPoints counts the intra-instruction scheduling points of this execution
+	// (second and later channel primitives inside one VM instruction; only with
+	// the reflect overlay, build tag verifreflect).
+	IntraPoints int
 }
 
 // Scenario is a closed system to explore.
@@ -278,6 +286,7 @@ func (x *Exec) hook(ev *scriggo.VerifEvent) {
 			x.fail("instruction-after-done|op="+fmt.Sprint(AbsOp(ev)), fmt.Sprintf("thread %d (%s) was resumed with the done flag visible and started another instruction (pc %d)", t.ID, t.Name, ev.PC))
 		}
 		t.Steps++
+		t.chanOps = 0
 		t.forcedPending = false
 		t.force, t.forceDone = -1, -1
 		if ev.Done {
@@ -361,20 +370,16 @@ func (x *Exec) hook(ev *scriggo.VerifEvent) {
 	case scriggo.VerifWatcher:
 		x.mu.Lock()
 		vt := x.byVM[ev.VM]
-		if vt == nil || vt.status != stParked {
-			// The VM's goroutine is not parked at an instruction: it was blocked in
-			// a channel operation that selects on the context too, so the cancel
-			// wakes it directly and it stops by itself (setting the flag); its
-			// runFunc may even have ended already (close(stop) then races with
-			// ctx.Done in the watcher's select, which picks at random). The delay
-			// of this watcher cannot be observed: let it store the flag now. Only
-			// the watcher of a thread that is parked at an instruction (computing)
-			// becomes a schedulable thread. vt.status is fixed while the cancel
-			// event runs, so this decision is deterministic.
+		if vt == nil {
+			// the VM's runFunc has ended already: nothing can observe this watcher
 			x.mu.Unlock()
 			return
 		}
-		w := &Thread{ID: 100000 + vt.ID, Name: fmt.Sprintf("watcher-of-%d", vt.ID), Watcher: true, resume: make(chan struct{}, 1), force: -1, forceDone: -1, status: stParked}
+		// Whether this watcher is a schedulable thread is decided by the scheduler
+		// at the next quiescence (see settleWatchers), never here: at this moment
+		// the VM's goroutine may still be on its way to its next scheduling point,
+		// and reading its status now would make the decision depend on timing.
+		w := &Thread{ID: 100000 + vt.ID, Name: fmt.Sprintf("watcher-of-%d", vt.ID), Watcher: true, resume: make(chan struct{}, 1), force: -1, forceDone: -1, status: stPending, watched: vt}
 		x.threads = append(x.threads, w)
 		x.mu.Unlock()
 		x.park(w)
@@ -387,6 +392,33 @@ func (x *Exec) hook(ev *scriggo.VerifEvent) {
 		x.Natives = append(x.Natives, pkg+"."+name)
 		x.mu.Unlock()
 	}
+}
+
+// settleWatchers is called at quiescence. A context watcher that woke up
+// (stPending) becomes a schedulable thread if the VM it belongs to is parked at
+// an instruction (computing): "the flag is not visible yet" is then a delay the
+// scheduler explores. Otherwise the VM's goroutine is blocked in a channel
+// operation or its runFunc has ended (close(stop) races with ctx.Done in the
+// watcher's select, which picks at random): the delay of this watcher cannot
+// be observed, so it is released at once, without a scheduling point. It
+// reports whether a watcher was released (the caller waits for quiescence again).
+func (x *Exec) settleWatchers() bool {
+	x.mu.Lock()
+	defer x.mu.Unlock()
+	released := false
+	for _, th := range x.threads {
+		if th.status != stPending {
+			continue
+		}
+		if th.watched.status == stParked {
+			th.status = stParked
+		} else {
+			th.status = stRunning
+			th.resume <- struct{}{}
+			released = true
+		}
+	}
+	return released
 }
 
 // goid returns the id of the calling goroutine (parsed from the stack header;
@@ -542,6 +574,7 @@ func runOne(t *testing.T, sc *Scenario, prefix []int) (x *Exec, obs string) {
 			}
 		}()
 		synctest.Test(t, func(t *testing.T) {
+			x.schedGoid = goid()
 			curExec.Store(x)
 			defer curExec.Store(nil)
 			bodies, observe := sc.Setup(x)
@@ -566,6 +599,9 @@ func runOne(t *testing.T, sc *Scenario, prefix []int) (x *Exec, obs string) {
 			var lastResumed *Thread
 			for {
 				synctest.Wait()
+				if x.settleWatchers() {
+					continue
+				}
 				if x.Violation != "" || x.Diverged != "" {
 					break
 				}
@@ -799,7 +835,7 @@ func Explore(t *testing.T, sc *Scenario, maxExec int) Stats {
 			checkedAlt = true
 			y, obs2 := runOne(t, sc, prefix)
 			if fmt.Sprint(traceOf(x)) != fmt.Sprint(traceOf(y)) || obs != obs2 {
-				st.Harness = append(st.Harness, fmt.Sprintf("nondeterministic replay of %v in %s", prefix, sc.Name))
+				st.Harness = append(st.Harness, fmt.Sprintf("nondeterministic replay of %v in %s:\n%v\n%v\nobs %q vs %q\nflags %v/%v %v/%v %v/%v", prefix, sc.Name, traceOf(x), traceOf(y), obs, obs2, x.Deadlock, y.Deadlock, x.Leak, y.Leak, x.CapHit, y.CapHit))
 				return false
 			}
 		}
